@@ -143,3 +143,28 @@ func ParseResponses(raw []byte, method string) ([]*http.Response, [][]byte, erro
 		bodies = append(bodies, b)
 	}
 }
+
+// BrokenWriter is a ResponseWriter whose connection to the client breaks after
+// FailAfter body bytes: further writes return an error, as net/http's do when the
+// client has gone away.
+type BrokenWriter struct {
+	H         http.Header
+	Code      int
+	FailAfter int
+	Written   int
+}
+
+func (b *BrokenWriter) Header() http.Header { return b.H }
+func (b *BrokenWriter) WriteHeader(c int)   { b.Code = c }
+func (b *BrokenWriter) Write(p []byte) (int, error) {
+	room := b.FailAfter - b.Written
+	if room <= 0 {
+		return 0, io.ErrClosedPipe
+	}
+	if len(p) > room {
+		b.Written += room
+		return room, io.ErrClosedPipe
+	}
+	b.Written += len(p)
+	return len(p), nil
+}
